@@ -504,6 +504,7 @@ pub fn gen_c14(g: &mut Gen, tier: &str) {
             pat.push(' '); pat.push_str(f); inp.push(' '); inp.push_str(v); }
         g.push(true, Input::with_strs("parse", vec![kind, now_year], vec![inp, pat]));
     }
+    for f in crate::cron::SPELLINGS { g.push(true, Input::with_strs("fromstr", vec![3], vec![f.to_string()])); }
     for p in ["'", "''", "'''", "yyyy'", "'abc", "y'", "\u{0}", "\u{0}\u{0}", "'\u{0}", "''''", "'a''", "y''y", "\u{e9}'\u{e9}", ""] {
         for kind in 0..3i128 {
             let mut ints = vec![kind]; ints.extend(value_pool(g, kind)); ints.push(0);
@@ -525,6 +526,7 @@ pub fn gen_c14(g: &mut Gen, tier: &str) {
         g.push(true, Input::with_strs("rfc_parse", vec![], vec![st.clone()]));
         { let __i = Input::with_strs("fromstr", vec![(g.rng.next() % 4) as i128], vec![st]); g.push(true, __i); }
         let e = crate::cron::gen_expr(g);
+        g.push(true, Input::with_strs("fromstr", vec![3], vec![e.clone()]));
         let mut ec: Vec<char> = e.chars().collect();
         if !ec.is_empty() { let p = (g.rng.next() as usize) % ec.len(); ec[p] = *g.rng.pick(&alphabet); }
         g.push(true, Input::with_strs("fromstr", vec![3], vec![ec.into_iter().collect()]));
